@@ -42,6 +42,38 @@ fn to_doc(s: &str, u: u32, bytes: bool) -> u32 {
     ab
 }
 
+/// the rows of one root sequence for the block-level model of sticky indexes (Crdt/Sticky.v, runner STK): per block
+/// `c:k:D:T` with T = s<code points> | e<n countable elements> | n<n not countable>
+fn stk_rows(vs: &VStore, root: &str) -> Option<(u32, String)> {
+    let b = vs.branches.iter().find(|b| matches!(&b.id, VParent::Root(n) if n == root))?;
+    let rows: Vec<String> = b.seq.iter().map(|it| {
+        let t = match &it.content {
+            yrs::verif::VContent::String(s) => format!("s{}", s.chars().map(|c| format!("{:x}", c as u32)).collect::<Vec<_>>().join(".")),
+            yrs::verif::VContent::Deleted(n) => format!("n{:x}", n),
+            yrs::verif::VContent::Format(..) => "n1".to_string(),
+            _ => format!("e{:x}", it.len),
+        };
+        format!("{:x}:{:x}:{}:{}", it.id.client.get(), it.id.clock, if it.deleted { 1 } else { 0 }, t)
+    }).collect();
+    Some((b.content_len, if rows.is_empty() { "_".to_string() } else { rows.join(",") }))
+}
+/// what the implementation answers for every index 0 ..= len + 1 and both associations: the anchor `at` chooses and the offset
+/// that anchor resolves to, in the notation of the runner's `STK all`
+fn stk_impl_table<S: IndexedSequence, T: ReadTxn>(seq: &S, txn: &T, clen: u32) -> String {
+    let mut out = vec![];
+    for i in 0..=clen + 1 { for after in [true, false] {
+        let r = catch(std::panic::AssertUnwindSafe(|| {
+            let st = seq.sticky_index(txn, i, if after { Assoc::After } else { Assoc::Before });
+            match st { None => ("N".to_string(), "N".to_string()), Some(st) => (
+                match st.id() { Some(id) => format!("R{:x}:{:x}", id.client.get(), id.clock), None => "B".to_string() },
+                match st.get_offset(txn) { Some(o) => format!("{:x}", o.index), None => "N".to_string() }) }
+        }));
+        let (a, o) = match r { Ok(x) => x, Err(_) => ("P".to_string(), "N".to_string()) };
+        out.push(format!("{:x}{}{}>{}", i, if after { "a" } else { "b" }, a, o));
+    } }
+    out.join(";")
+}
+
 #[derive(Clone)]
 struct Sticky { bytes: Vec<u8>, v2: bool, json: Option<String>, root: &'static str, anchor: Option<(u64, u32)>, after: bool, created_at: u64, index: u32, anchor_val: Option<String> }
 #[derive(Clone)]
@@ -210,6 +242,31 @@ fn run_case(seed: u64, index: u64, rep: &mut Report, want: &[&str], md: &mut Mod
             let vs = store_dump(&rp.doc);
             let (m, arr, _t) = (rp.doc.get_or_insert_map(ROOT_MAP), rp.doc.get_or_insert_array(ROOT_ARRAY), rp.doc.get_or_insert_text(ROOT_TEXT));
             let txn = rp.doc.transact();
+            // ---- the block-level transcription of StickyIndex::at / get_offset (Crdt/Sticky.v), fed the item sequence of the hook
+            // dump, answers like the implementation for EVERY index of both root sequences and both associations
+            if want.contains(&"C14") { for root in [ROOT_TEXT, ROOT_ARRAY] { if let Some((clen, rows)) = stk_rows(&vs, root) {
+                let kind = if bytes { "b" } else { "u" };
+                let ans = md.ask(&format!("STK all {} {:x} 0 {}", kind, clen, rows));
+                let imp = if root == ROOT_TEXT { stk_impl_table(&_t, &txn, clen) } else { stk_impl_table(&arr, &txn, clen) };
+                rep.count("c14_sequences_compared_with_the_transcription_of_at_and_get_offset");
+                rep.add("c14_sticky_positions_compared_with_the_transcription", 2 * (clen as u64 + 2));
+                // `at` never panics, whatever the index (an index inside a character is answered None)
+                if imp.contains('P') { fails.push(json!({"property": "C14", "class": "sticky-index-panics", "root": root, "replica": ri, "step": step, "bytes": bytes, "table": imp, "content_len": clen})); }
+                if let Some(rest) = ans.strip_prefix("ok wf=1 ") {
+                    if rest != imp { rep.disagree(json!({"kind": "sticky transcription (STK all)", "root": root, "replica": ri, "step": step, "bytes": bytes, "rows": rows, "content_len": clen, "model": rest, "impl": imp, "case": {"stream": 114, "index": index, "seed": seed}, "script": script})); }
+                } else if ans.starts_with("ok wf=0") { rep.count("c14_sequences_outside_stk_wf"); }
+                else { rep.disagree(json!({"kind": "sticky transcription (STK all): no answer", "answer": ans.chars().take(300).collect::<String>(), "rows": rows})); }
+                // anchors made earlier (possibly elsewhere) resolve as the transcription says (copies made by undo are followed by the
+                // implementation only: histories without an undo manager)
+                if !undo_case { for s in stickies.iter().filter(|s| s.root == root) {
+                    let st = match if s.v2 { StickyIndex::decode_v2(&s.bytes) } else { StickyIndex::decode_v1(&s.bytes) } { Ok(x) => x, Err(_) => continue };
+                    let sc = match s.anchor { Some((c, k)) => { if !units_of_root(&vs, root).iter().any(|u| u.0 == c && u.1 == k) { continue; } format!("{:x}:{:x}", c, k) }, None => "B".to_string() };
+                    let m = md.ask(&format!("STK off {} {:x} 0 {} {} {}", kind, clen, rows, sc, if s.after { "a" } else { "b" }));
+                    let got = match st.get_offset(&txn) { Some(o) => format!("ok {:x}", o.index), None => "ok N".to_string() };
+                    rep.count("c14_resolutions_compared_with_the_transcription");
+                    if ans.starts_with("ok wf=1") && m != got { rep.disagree(json!({"kind": "sticky transcription (STK off)", "root": root, "replica": ri, "step": step, "rows": rows, "anchor": sc, "after": s.after, "model": m, "impl": got, "script": script})); }
+                } }
+            } } }
             for (si, s) in stickies.iter().enumerate() {
                 let units = units_of_root(&vs, s.root);
                 let knows = match s.anchor { Some((c, k)) => units.iter().any(|u| u.0 == c && u.1 == k), None => true };
